@@ -176,7 +176,7 @@ def coq_width(cases, res):
 def judge_width(cases, res, model, hang, label):
     mism, fails, stats = [], [], {"width_cases": 0, "path_return": 0, "path_serial": 0, "path_redirect_serial": 0,
                                   "path_redirect_parallel": 0, "partial_grant": 0, "relinquish_ops": 0, "cas_retries": 0,
-                                  "skipped": 0, "nested": 0, "with_blockers": 0}
+                                  "skipped": 0, "width_nested": 0, "with_blockers": 0}
     for i, c in enumerate(cases):
         d = res.get(i, {})
         desc = {"case": i, "n": c[0], "cpus": c[1], "nest": c[2], "onself": c[3], "widths": c[4], "blockers": c[5], "label": label}
@@ -190,7 +190,7 @@ def judge_width(cases, res, model, hang, label):
             stats["skipped"] += 1
             continue
         stats["width_cases"] += 1
-        stats["nested"] += 1 if c[2] else 0
+        stats["width_nested"] += 1 if c[2] else 0
         stats["with_blockers"] += 1 if any(c[5]) else 0
         n = c[0]
         # ---- API-level oracle (independent of the model)
